@@ -436,6 +436,36 @@ fn try_merge_schema_not(
         // ... whereas subtracting nothing leaves everything.
         Schema::Bool(false) => Ok(schema_object),
 
+        // Subtracting enumerated values from enumerated values.
+        Schema::Object(SchemaObject {
+            metadata: _,
+            instance_type: None,
+            format: None,
+            enum_values: Some(not_values),
+            const_value: None,
+            subschemas: None,
+            number: None,
+            string: None,
+            array: None,
+            object: None,
+            reference: None,
+            extensions: _,
+        }) if schema_object.enum_values.is_some() => {
+            let values = schema_object
+                .enum_values
+                .take()
+                .unwrap()
+                .into_iter()
+                .filter(|value| !not_values.contains(value))
+                .collect::<Vec<_>>();
+            if values.is_empty() {
+                Err(())
+            } else {
+                schema_object.enum_values = Some(values);
+                Ok(schema_object)
+            }
+        }
+
         Schema::Object(SchemaObject {
             // I don't think there's any significance to the schema metadata
             // with respect to the types we might generate.
